@@ -116,7 +116,10 @@ def build(sc):
         tc = unpytok(sc["tc"])
         w = unpytok(sc["w"])
         if sc.get("enum") and isinstance(w, int):
-            w = colour.StoreColourTemperatureTcLimitDTR2(w)
+            # the member is chosen by its NAME as IEC 62386-209 command 242 numbers the limits (0 coolest,
+            # 1 warmest, 2 physical coolest, 3 physical warmest), not by whatever value the library gives it
+            std_names = {0: "TcCoolest", 1: "TcWarmest", 2: "TcPhysicalCoolest", 3: "TcPhysicalWarmest"}
+            w = getattr(colour.StoreColourTemperatureTcLimitDTR2, std_names[w])
         return ("start settclimit %s %s %s" % (sc["dest"], sc["w"], sc["tc"]),
                 lambda: GS.SetDT8TcLimit(dest_obj(sc["dest"]), w, tc),
                 lambda r: "u" if r is None else None)
